@@ -1,8 +1,14 @@
 open C20
 open Drv
 let vres = function VOk -> "Ok" | VErrStab -> "ErrStab" | VErrStabLog -> "ErrStabLog" | VErrSplit -> "ErrSplit" | VErrLog -> "ErrLog"
+(* shape flag '1' = the property returns a 1-d vector (exactly one row given), '2' = a 2-d matrix *)
+let nd flag s =
+  let rows = rows_of_string s in
+  if flag = '1' then (match rows with [v] -> A1 v | _ -> failwith "1-d operand needs exactly one row") else A2 rows
 let dispatch = function
   | ["validate"; s; x; z] -> vres (validate { stabs = rows_of_string s; lxs = rows_of_string x; lzs = rows_of_string z })
+  | ["vfast"; s; x; z] -> vres (validate_fast { stabs = rows_of_string s; lxs = rows_of_string x; lzs = rows_of_string z })
+  | ["validate_nd"; f; s; x; z] when String.length f = 3 -> vres (validate_nd (nd f.[0] s) (nd f.[1] x) (nd f.[2] z))
   | ["logicals"; x; z] -> string_of_rows (logicals { stabs = []; lxs = rows_of_string x; lzs = rows_of_string z })
   | ["dr_ok"; s; r] -> if decode_result_ok (if s = "_" then None else Some ()) (if r = "_" then None else Some ()) then "1" else "0"
   | _ -> "ERR BadRequest"
